@@ -97,6 +97,8 @@ def run(an: Analysis, rep):
     rep.run(purity, an, rep, "R10.P", ["from_code", "to_code"])
     from .common import identity_rule, old_interpreter_rule
     rep.run(identity_rule, an, rep, "R10.I", ["from_code", "to_code"])
+    from .common import assert_guard_rule as _agr10
+    rep.run(_agr10, an, rep, "R10.G", ["from_code", "to_code"])
     rep.run(old_interpreter_rule, an, rep, "R10.V", ["from_code", "to_code"])
     rep.run(c01.r01a, an, SharedRules(rep, "R10.N", "what the decoder takes out of the decoded line mapping reaches the data on every path (shared with C01's R01.A): entries dropped on the way are missing "
                                                    "when the mapping is rebuilt for re-encoding"), "R01.A", "not dropped")
